@@ -92,6 +92,8 @@ def w_atom(a):
         return w_text("delText", a["s"])
     if k in ("tab", "br", "cr"):
         return f"<w:{k}/>"
+    if k == "nbh":
+        return "<w:noBreakHyphen/>"
     if k == "cref":
         return f'<w:commentReference w:id="{esca(a["id"])}"/>'
     if k == "fld":
@@ -350,6 +352,8 @@ def r_run(r) -> dict:
             ch.append({"k": "dt", "s": c.text or ""})
         elif t in (q("w:tab"), q("w:br"), q("w:cr")) and len(c.attrib) == 0:
             ch.append({"k": etree.QName(c).localname})
+        elif t == q("w:noBreakHyphen") and len(c.attrib) == 0:
+            ch.append({"k": "nbh"})
         elif t == q("w:commentReference"):
             ch.append({"k": "cref", "id": c.get(q("w:id"))})
         elif t == q("w:fldChar") and set(c.attrib) == {q("w:fldCharType")}:
